@@ -9,12 +9,15 @@ From Verif Require Import Common.Base JsScope.Model.
    waiting in the undeclared list of the open scope s *)
 Inductive label :=
 | LDecl (s : nat) (x : Z)
-| LPend (s : nat) (x : Z).
+| LPend (s : nat) (x : Z)
+| LArg (s : nat) (x : Z).      (* unresolved, made in the parameter list / loop head / catch parameter of the open scope s
+                                  (one of its first NumArgUses undeclared entries): invisible to the body of s *)
 
 Definition label_eqb (a b : label) : bool :=
   match a, b with
   | LDecl s x, LDecl t y => Nat.eqb s t && (x =? y)
   | LPend s x, LPend t y => Nat.eqb s t && (x =? y)
+  | LArg s x, LArg t y => Nat.eqb s t && (x =? y)
   | _, _ => false
   end.
 
@@ -22,14 +25,16 @@ Definition label_eqb (a b : label) : bool :=
    function scope fs passed through this block (AddUndeclared) *)
 Inductive uent :=
 | UPend (x : Z)
-| UPass (x : Z) (fs : nat).
+| UPass (x : Z) (fs : nat)
+| UArg (x : Z).                (* a pending use among the first NumArgUses entries *)
 
-Definition uname (e : uent) : Z := match e with UPend x => x | UPass x _ => x end.
+Definition uname (e : uent) : Z := match e with UPend x => x | UPass x _ => x | UArg x => x end.
 
 Definition uent_eqb (a b : uent) : bool :=
   match a, b with
   | UPend x, UPend y => x =? y
   | UPass x s, UPass y t => (x =? y) && Nat.eqb s t
+  | UArg x, UArg y => x =? y
   | _, _ => false
   end.
 
@@ -56,8 +61,9 @@ Inductive aout :=
 Definition a_find_decl (fr : frame) (x : Z) : option (Z * Z) :=
   find (fun e => fst e =? x) (rev (fdecl fr)).
 
+(* findUndeclared does not see the pending uses of the parameter list *)
 Definition a_find_und (fr : frame) (x : Z) : option uent :=
-  find (fun e => uname e =? x) (fund fr).
+  find (fun e => match e with UArg _ => false | _ => uname e =? x end) (fund fr).
 
 Definition relabel (from to : label) (l : list label) : list label :=
   map (fun e => if label_eqb e from then to else e) l.
@@ -78,6 +84,7 @@ Definition a_use (a : astate) (x : Z) : aout :=
           match a_find_und fr x with
           | Some (UPend _) => ARun (mkA (astack a) (anext a) (LPend (fid fr) x :: alog a))
           | Some (UPass _ fs) => ARun (mkA (astack a) (anext a) (LDecl fs x :: alog a))
+          | Some (UArg _) => AStuck
           | None =>
               ARun (mkA (set_fund fr (fund fr ++ [UPend x]) :: rest) (anext a) (LPend (fid fr) x :: alog a))
           end
@@ -115,7 +122,7 @@ Fixpoint a_find_reuse (x : Z) (l : list uent) (i : nat) : option nat :=
   match l with
   | [] => None
   | UPend y :: t => if y =? x then Some i else a_find_reuse x t (S i)
-  | UPass _ _ :: t => a_find_reuse x t (S i)
+  | UPass _ _ :: t | UArg _ :: t => a_find_reuse x t (S i)
   end.
 
 Definition a_declare (a : astate) (decl x : Z) : aout :=
@@ -156,21 +163,26 @@ Definition a_declare (a : astate) (decl x : Z) : aout :=
   end.
 
 (* ---- HoistUndeclared + exit ------------------------------------------------------------------- *)
+(* one unresolved entry (label from) of the closing scope, then the rest (k) *)
+Definition a_hoist1 (k : frame -> list label -> frame * list label) (from : label) (x : Z)
+                    (pr : frame) (log : list label) : frame * list label :=
+  match a_find_decl pr x with
+  | Some _ => k pr (relabel from (LDecl (fid pr) x) log)
+  | None =>
+      match a_find_und pr x with
+      | Some (UPend _) => k pr (relabel from (LPend (fid pr) x) log)
+      | Some (UPass _ fs) => k pr (relabel from (LDecl fs x) log)
+      | Some (UArg _) => k pr log      (* unreachable: a_find_und does not return these *)
+      | None => k (set_fund pr (fund pr ++ [UPend x])) (relabel from (LPend (fid pr) x) log)
+      end
+  end.
+
 Fixpoint a_hoist (s : nat) (l : list uent) (pr : frame) (log : list label) : frame * list label :=
   match l with
   | [] => (pr, log)
   | UPass _ _ :: t => a_hoist s t pr log
-  | UPend x :: t =>
-      match a_find_decl pr x with
-      | Some _ => a_hoist s t pr (relabel (LPend s x) (LDecl (fid pr) x) log)
-      | None =>
-          match a_find_und pr x with
-          | Some (UPend _) => a_hoist s t pr (relabel (LPend s x) (LPend (fid pr) x) log)
-          | Some (UPass _ fs) => a_hoist s t pr (relabel (LPend s x) (LDecl fs x) log)
-          | None =>
-              a_hoist s t (set_fund pr (fund pr ++ [UPend x])) (relabel (LPend s x) (LPend (fid pr) x) log)
-          end
-      end
+  | UPend x :: t => a_hoist1 (a_hoist s t) (LPend s x) x pr log
+  | UArg x :: t => a_hoist1 (a_hoist s t) (LArg s x) x pr log
   end.
 
 Definition a_exit (a : astate) : aout :=
@@ -184,18 +196,25 @@ Definition a_exit (a : astate) : aout :=
 Definition a_enter (a : astate) (is_func : bool) : aout :=
   ARun (mkA (mkF (anext a) is_func [] [] O O :: astack a) (S (anext a)) (alog a)).
 
-Definition a_mark_args (a : astate) : aout :=
+(* MarkFuncArgs / MarkForStmt / the mark after a catch parameter: every pending use made so far in the scope becomes
+   invisible to the rest of the scope.  Marking a scope twice is outside the machine. *)
+Definition is_uarg (e : uent) : bool := match e with UArg _ => true | _ => false end.
+Definition to_args (l : list uent) : list uent := map (fun e => match e with UPend x => UArg x | _ => e end) l.
+Definition args_log (s : nat) (log : list label) : list label :=
+  map (fun lb => match lb with LPend t x => if Nat.eqb t s then LArg s x else lb | _ => lb end) log.
+
+Definition a_mark (a : astate) (nfor : frame -> nat) : aout :=
   match astack a with
-  | fr :: rest => ARun (mkA (mkF (fid fr) (fisfunc fr) (fdecl fr) (fund fr) (length (fund fr)) (fnfor fr) :: rest) (anext a) (alog a))
+  | fr :: rest =>
+      if existsb is_uarg (fund fr) then AStuck
+      else ARun (mkA (mkF (fid fr) (fisfunc fr) (fdecl fr) (to_args (fund fr)) (length (fund fr)) (nfor fr) :: rest)
+                     (anext a) (args_log (fid fr) (alog a)))
   | [] => AStuck
   end.
 
-Definition a_mark_for (a : astate) : aout :=
-  match astack a with
-  | fr :: rest =>
-      ARun (mkA (mkF (fid fr) (fisfunc fr) (fdecl fr) (fund fr) (length (fund fr)) (length (fdecl fr)) :: rest) (anext a) (alog a))
-  | [] => AStuck
-  end.
+Definition a_mark_args (a : astate) : aout := a_mark a fnfor.
+Definition a_mark_for (a : astate) : aout := a_mark a (fun fr => length (fdecl fr)).
+Definition a_mark_catch (a : astate) : aout := a_mark a fnfor.
 
 Definition astep (a : astate) (e : event) : aout :=
   match e with
@@ -205,6 +224,7 @@ Definition astep (a : astate) (e : event) : aout :=
   | EUse x => a_use a x
   | EMarkArgs => a_mark_args a
   | EMarkFor => a_mark_for a
+  | EMarkCatch => a_mark_catch a
   | _ => AStuck
   end.
 
